@@ -146,12 +146,20 @@ pub fn tracker_ticks(_args: &[String]) -> String {
     let names = ["inc(1)", "tick", "set_message", "set_prefix", "set_length(5)", "inc_length(1)", "dec_length(1)", "unset_length", "set_position(3)", "reset", "finish", "inc(0)"];
     let n = names.len();
     let mut tried = 0u64;
+    // order: how the style gets its template and its key (0: template then key; 1: key then template; 2: the template of the
+    // bar's own style is replaced while it runs).  Orders 1 and 2 run a sub-family of the histories.
+    for order in 0..3 {
     for visible in [false, true] {
         for a in 0..n { for b in 0..n { for c in 0..n { for d in [0usize, 1, 2, 9] {
+            if order > 0 && !([0usize, 9, 10].contains(&b) && c == 1 && d == 0) { continue; }
             let log = Log(Arc::new(Mutex::new(vec![])));
             let target = if visible { ProgressDrawTarget::term_like(Box::new(InMemoryTerm::new(10, 40))) } else { ProgressDrawTarget::hidden() };
             let pb = ProgressBar::with_draw_target(Some(10), target);
-            pb.set_style(ProgressStyle::with_template("{k} {msg}").unwrap().with_key("k", log.clone()));
+            match order {
+                0 => pb.set_style(ProgressStyle::with_template("{k} {msg}").unwrap().with_key("k", log.clone())),
+                1 => pb.set_style(ProgressStyle::default_bar().with_key("k", log.clone()).template("{k} {msg}").unwrap()),
+                _ => { pb.set_style(ProgressStyle::with_template("{msg}").unwrap().with_key("k", log.clone())); let st = pb.style().template("{k} {msg}").unwrap(); pb.set_style(st); }
+            }
             let mut want: Vec<String> = vec![];
             let mut pos = 0u64;
             let mut hist: Vec<&str> = vec![];
@@ -176,11 +184,12 @@ pub fn tracker_ticks(_args: &[String]) -> String {
                 if got != want {
                     let w: Vec<&str> = want.iter().map(String::as_str).collect();
                     let g: Vec<&str> = got.iter().map(String::as_str).collect();
-                    return format!("{{\"found\": true, \"clause\": \"C11 custom keys are ticked and reset together with the bar\", \"input\": {{\"visible\": {}, \"history\": {}, \"expected_events\": {}, \"events\": {}}}, \"rerun\": \"replay tracker_ticks\"}}",
-                        visible, crate::jlist(&hist), crate::jlist(&w), crate::jlist(&g));
+                    return format!("{{\"found\": true, \"clause\": \"C11 custom keys are ticked and reset together with the bar\", \"input\": {{\"visible\": {}, \"style_built\": {}, \"history\": {}, \"expected_events\": {}, \"events\": {}}}, \"rerun\": \"replay tracker_ticks\"}}",
+                        visible, crate::js(["with_template(..).with_key(..)", "default_bar().with_key(..).template(..)", "pb.style().template(..) on the running bar"][order]), crate::jlist(&hist), crate::jlist(&w), crate::jlist(&g));
                 }
             }
         }}}}
+    }
     }
     format!("{{\"found\": false, \"tried\": {}}}", tried)
 }
@@ -685,6 +694,35 @@ pub fn time_laws(_args: &[String]) -> String {
             return format!("{{\"found\": true, \"clause\": \"C09 the rate of a finished bar is its average over the steps done\", \"input\": {{\"history\": \"length 1000000; 5 x (sleep 4 ms; inc(200)); abandon\", \"reported\": {}, \"at_most\": {}}}, \"rerun\": \"replay time_laws\"}}", r, upper);
         }
     }
+    // hidden and throttled bars (their draws are skipped): the getters are evaluated at the query instant all the same
+    for kind in 0..2 {
+        for how in 0..3 {
+            let pb = if kind == 0 { ProgressBar::hidden() } else {
+                ProgressBar::with_draw_target(None, indicatif::ProgressDrawTarget::term_like_with_hz(Box::new(indicatif::InMemoryTerm::new(4, 40)), 1))
+            };
+            pb.set_length(1000);
+            for _ in 0..70 { pb.tick(); }          // uses up the burst of the throttled target
+            for _ in 0..6 { std::thread::sleep(Duration::from_millis(4)); pb.inc(10); }
+            let what = ["6 x (sleep 4 ms; inc(10))", "6 x (sleep 4 ms; inc(10)); reset_eta()", "6 x (sleep 4 ms; inc(10)); reset()"][how];
+            match how { 1 => pb.reset_eta(), 2 => pb.reset(), _ => {} }
+            let (r, e1, d) = (pb.per_sec(), pb.elapsed(), pb.duration());
+            tried += 1;
+            if !(r.is_finite() && r >= 0.0) || d + Duration::from_millis(1) < e1 {
+                return format!("{{\"found\": true, \"clause\": \"C09 per_sec is finite and non-negative and duration is at least elapsed, also for a bar whose draws are skipped\", \"input\": {{\"bar\": \"{}\", \"history\": \"{}\", \"per_sec\": \"{}\", \"elapsed_ms\": {}, \"duration_ms\": {}}}, \"rerun\": \"replay time_laws\"}}",
+                    if kind == 0 { "hidden" } else { "1 Hz target, burst used up" }, what, r, e1.as_millis(), d.as_millis());
+            }
+            if how == 0 {
+                let r1 = pb.per_sec();
+                std::thread::sleep(Duration::from_millis(150));
+                let r2 = pb.per_sec();
+                tried += 1;
+                if !(r1 > 0.0 && r2 != r1) {
+                    return format!("{{\"found\": true, \"clause\": \"C09 the rate is evaluated at the query instant: it moves while progress stalls, also for a bar whose draws are skipped\", \"input\": {{\"bar\": \"{}\", \"history\": \"{}; per_sec(); sleep 150 ms; per_sec()\", \"first\": \"{}\", \"second\": \"{}\"}}, \"rerun\": \"replay time_laws\"}}",
+                        if kind == 0 { "hidden" } else { "1 Hz target, burst used up" }, what, r1, r2);
+                }
+            }
+        }
+    }
     // an ETA too long for a Duration saturates; it does not become zero
     {
         let pb = ProgressBar::hidden();
@@ -774,6 +812,75 @@ pub fn stale_redraw(_args: &[String]) -> String {
             return format!("{{\"found\": true, \"clause\": \"C05 a redraw request arriving at least one refresh interval after the last painted frame is always painted and shows the latest texts\", \"input\": {{\"history\": [\"20 Hz target, position 7\", \"60 x set_message(spam i)\", \"set_message(latest)\", \"sleep 120 ms\", {}], \"expected_screen\": \"7/100 latest\", \"screen\": {}}}, \"rerun\": \"replay stale_redraw\"}}",
                 crate::js(what), crate::js(&got));
         }
+    }
+    format!("{{\"found\": false, \"tried\": {}}}", tried)
+}
+
+/// C03 / C01 / C02: the default targets are buffered terminals; what an operation writes must be flushed before the
+/// operation returns and before a `suspend` closure runs (otherwise the closure's output and the pending erase sequence
+/// reach the terminal in the wrong order).  A TermLike that counts the operations since the last flush.
+pub fn flush_discipline(_args: &[String]) -> String {
+    use indicatif::{InMemoryTerm, MultiProgress, ProgressBar, ProgressDrawTarget, ProgressStyle, TermLike};
+    use std::sync::atomic::{AtomicUsize, Ordering};
+    use std::sync::Arc;
+    std::panic::set_hook(Box::new(|_| {}));
+    #[derive(Debug, Clone)]
+    struct Pending { inner: InMemoryTerm, n: Arc<AtomicUsize> }
+    impl Pending { fn op(&self) { self.n.fetch_add(1, Ordering::SeqCst); } }
+    impl TermLike for Pending {
+        fn width(&self) -> u16 { self.inner.width() }
+        fn height(&self) -> u16 { self.inner.height() }
+        fn move_cursor_up(&self, n: usize) -> std::io::Result<()> { self.op(); self.inner.move_cursor_up(n) }
+        fn move_cursor_down(&self, n: usize) -> std::io::Result<()> { self.op(); self.inner.move_cursor_down(n) }
+        fn move_cursor_right(&self, n: usize) -> std::io::Result<()> { self.op(); self.inner.move_cursor_right(n) }
+        fn move_cursor_left(&self, n: usize) -> std::io::Result<()> { self.op(); self.inner.move_cursor_left(n) }
+        fn write_line(&self, s: &str) -> std::io::Result<()> { self.op(); self.inner.write_line(s) }
+        fn write_str(&self, s: &str) -> std::io::Result<()> { self.op(); self.inner.write_str(s) }
+        fn clear_line(&self) -> std::io::Result<()> { self.op(); self.inner.clear_line() }
+        fn flush(&self) -> std::io::Result<()> { self.n.store(0, Ordering::SeqCst); self.inner.flush() }
+    }
+    let names = ["tick", "inc(1)", "set_message(two lines)", "println", "suspend", "mp.println", "mp.suspend", "mp.clear", "finish_and_clear first bar", "finish second bar"];
+    let mut tried = 0u64;
+    for multi in [false, true] {
+        for a in 0..names.len() { for b in 0..names.len() {
+            let n = Arc::new(AtomicUsize::new(0));
+            let t = Pending { inner: InMemoryTerm::new(10, 40), n: n.clone() };
+            let mp = if multi { Some(MultiProgress::with_draw_target(ProgressDrawTarget::term_like(Box::new(t.clone())))) } else { None };
+            let mkb = |i: usize| {
+                let pb = match &mp { Some(mp) => mp.add(ProgressBar::new(10)), None => ProgressBar::with_draw_target(Some(10), ProgressDrawTarget::term_like(Box::new(t.clone()))) };
+                pb.set_style(ProgressStyle::with_template(&format!("b{} {{msg}}\n{{pos}}/{{len}}", i)).unwrap());
+                pb.tick();
+                pb
+            };
+            let bars: Vec<ProgressBar> = if multi { vec![mkb(0), mkb(1)] } else { vec![mkb(0)] };
+            let mut hist: Vec<String> = vec![if multi { "MultiProgress with two two-line bars, both painted".into() } else { "a two-line bar, painted".into() }];
+            for op in [a, b] {
+                if !multi && op >= 5 { continue; }
+                let first = &bars[0];
+                let last = &bars[bars.len() - 1];
+                let mut inside: Option<usize> = None;
+                match op {
+                    0 => last.tick(),
+                    1 => last.inc(1),
+                    2 => first.set_message("two\nlines"),
+                    3 => first.println("log"),
+                    4 => last.suspend(|| { inside = Some(n.load(Ordering::SeqCst)); }),
+                    5 => { let _ = mp.as_ref().unwrap().println("log"); }
+                    6 => mp.as_ref().unwrap().suspend(|| { inside = Some(n.load(Ordering::SeqCst)); }),
+                    7 => { let _ = mp.as_ref().unwrap().clear(); }
+                    8 => first.finish_and_clear(),
+                    _ => last.finish(),
+                }
+                hist.push(names[op].to_string());
+                tried += 1;
+                let after = n.load(Ordering::SeqCst);
+                if inside.unwrap_or(0) != 0 || after != 0 {
+                    let h: Vec<&str> = hist.iter().map(String::as_str).collect();
+                    return format!("{{\"found\": true, \"clause\": \"C03/C01/C02 whatever an operation writes is flushed before it returns and before a suspend closure runs: nothing stays pending in a buffered terminal\", \"input\": {{\"history\": {}, \"operations_pending_inside_the_closure\": {}, \"operations_pending_after_the_call\": {}}}, \"rerun\": \"replay flush_discipline\"}}",
+                        crate::jlist(&h), inside.unwrap_or(0), after);
+                }
+            }
+        }}
     }
     format!("{{\"found\": false, \"tried\": {}}}", tried)
 }
